@@ -1,5 +1,6 @@
 import Rangers.Model.RLPTyped
 import Rangers.Proofs.RLPTypedComplete
+import Rangers.Proofs.RLPTypedFuel
 import Rangers.Generated.C08Types
 /-!
 # C08 — typed coders: lossless ("encoding any supported value and decoding returns an equal value")
@@ -17,6 +18,27 @@ theorem typed_roundtrip_fuel (ty : Ty) (v : Val) (enc rest : Bytes) (f : Nat)
     (hwf : WFV ty v) (henc : encT ty v = .ok enc) (hf : vfuel v + 1 ≤ f) :
     decT f ty (enc ++ rest) = .ok (norm ty v, rest) :=
   (typed_complete f).1 ty v enc rest hwf henc (by cases ty <;> simp only [axtra] <;> omega)
+
+/-- Total: the typed decoder's recursion fuel is never the reason for a rejection. -/
+theorem decodeTy_total (ty : Ty) (b : Bytes) : decodeTy ty b ≠ .error .fuel := by
+  unfold decodeTy
+  have := typed_fuel_suffices ty b
+  cases hd : decT (typedFuel ty b) ty b with
+  | error e => simp only; intro h; injection h with h; subst h; exact this hd
+  | ok r => obtain ⟨v, rest⟩ := r; simp only; split <;> simp
+
+/-- Lossless at the level of `DecodeBytes`/`EncodeToBytes`: for every type and every well-formed
+    value, decoding the encoding returns the (normalised) value. -/
+theorem typed_roundtrip (ty : Ty) (v : Val) (enc : Bytes) (hwf : WFV ty v) (henc : encT ty v = .ok enc) :
+    decodeTy ty enc = .ok (norm ty v) := by
+  have h1 := typed_roundtrip_fuel ty v enc [] (vfuel v + 1) hwf henc (Nat.le_refl _)
+  rw [List.append_nil] at h1
+  have h2 := decT_mono_le (Nat.le_max_left (vfuel v + 1) (typedFuel ty enc)) ty enc _ h1 (by simp)
+  have h3 := typed_fuel_suffices ty enc
+  have h4 := decT_mono_le (Nat.le_max_right (vfuel v + 1) (typedFuel ty enc)) ty enc _ rfl h3
+  unfold decodeTy
+  rw [← h4, h2]
+  simp
 
 -- non-vacuity: an account record is well-formed, encodes, and `norm` leaves it alone
 example : WFV account_Account (.list [.num 7, .bytes (List.replicate 32 0xab), .bytes [0x01, 0x02]]) := by
@@ -45,10 +67,9 @@ theorem account_norm_id (v : Val) (h : WFV account_Account v) : norm account_Acc
   | _ => simp [WFV] at h
 
 /-- account records round-trip exactly -/
-theorem account_roundtrip (v : Val) (enc rest : Bytes) (f : Nat) (hwf : WFV account_Account v)
-    (henc : encT account_Account v = .ok enc) (hf : vfuel v + 1 ≤ f) :
-    decT f account_Account (enc ++ rest) = .ok (v, rest) := by
-  have := typed_roundtrip_fuel _ v enc rest f hwf henc hf
+theorem account_roundtrip (v : Val) (enc : Bytes) (hwf : WFV account_Account v)
+    (henc : encT account_Account v = .ok enc) : decodeTy account_Account enc = .ok v := by
+  have := typed_roundtrip _ v enc hwf henc
   rwa [account_norm_id v hwf] at this
 
 theorem norm_big_id (p : Val) (h : p ≠ .nil) : norm .big p = p := by
